@@ -115,6 +115,7 @@ func (d *DatasourceExecuting) Run(ctx ExecutionContext, produce ProduceFn, metaS
 	var fileReaderIsDone bool
 produceLoop:
 	for {
+		simhook.YieldCtx(localCtx, "json.consumer.loop", int64(startIndex))
 		select {
 		case outJobs := <-outChan:
 			<-outChanAvailableTokens
